@@ -204,8 +204,13 @@ def generate(repo):
     for site in ("caltech", "jpl", "office001"):
         for basic in (False, True):
             for idx, kwargs in enumerate(CONFIGS[site]):
-                with contextlib.redirect_stdout(io.StringIO()):
-                    name, text, info = dump_one(site, basic, kwargs, idx)
+                try:
+                    with contextlib.redirect_stdout(io.StringIO()):
+                        name, text, info = dump_one(site, basic, kwargs, idx)
+                except Exception as e:  # noqa  -- fail closed: the generated file does not compile
+                    name = "site_%s_%s_%d" % (site, "basic" if basic else "real", idx)
+                    text = "Definition %s : site := factory_raised_%s.\n" % (name, type(e).__name__)
+                    info = dict(name=name, error="%s: %s" % (type(e).__name__, e))
                 out += text + "\n"
                 names.append(name)
                 groups.setdefault(site, []).append(name)
